@@ -112,6 +112,19 @@ func VF_C09_MissingPlacement(desc int, first int) {
 	o.Compute(r2)
 	c2 := o.Compare(m2, r2)
 	vfAssert(vfSign(c2) == -vfSign(c), "reversed order is the exact mirror, missing values included")
+	// what TopNSearch.Collector does for search-before: Copy(), then Reverse() on the copy.
+	// o is reversed at this point; reversing a copy of it must give the original order again,
+	// and the copy itself must order exactly like o.
+	cp := o.Copy()
+	m3, r3 := &DocumentMatch{HitNumber: 1}, &DocumentMatch{HitNumber: 2, Number: 7}
+	cp.Compute(m3)
+	cp.Compute(r3)
+	vfAssert(vfSign(cp.Compare(m3, r3)) == vfSign(c2), "a copy of a sort order orders like the original (direction and missing-value placement kept)")
+	cp.Reverse()
+	m4, r4 := &DocumentMatch{HitNumber: 1}, &DocumentMatch{HitNumber: 2, Number: 7}
+	cp.Compute(m4)
+	cp.Compute(r4)
+	vfAssert(vfSign(cp.Compare(m4, r4)) == vfSign(c), "reversing the copy mirrors it, missing values included")
 }
 
 var vfKeys map[uint64][]byte
